@@ -1505,4 +1505,60 @@ theorem received_prefix_any_time (pinned : Bool) (limit : Int) (stops : List Byt
       exact ⟨new, hnew.symm⟩
   exact List.IsPrefix.trans ⟨_, h2⟩ h3
 
+/-! ## L. the completion handler -/
+
+theorem runN_eq_run (pinned : Bool) (limit : Int) (stops : List Bytes) :
+    ∀ (evs : List Ev) (n : Nat) (st : St), evs.length < n →
+      runN pinned limit stops n st evs = run pinned limit stops st evs := by
+  intro evs
+  induction evs with
+  | nil =>
+    intro n st h
+    cases n with
+    | zero => simp at h
+    | succ n => simp [runN, run]
+  | cons ev rest ih =>
+    intro n st h
+    cases n with
+    | zero => simp at h
+    | succ n =>
+      unfold runN run
+      split
+      · rfl
+      · cases ev with
+        | eos => rfl
+        | piece p =>
+          simp only
+          split
+          · rfl
+          · exact ih n _ (by simp at h; omega)
+
+theorem clientText_append (a b : List Line) : clientText (a ++ b) = clientText a ++ clientText b := by
+  induction a with
+  | nil => rfl
+  | cons l ls ih => cases l <;> simp [clientText, ih]
+
+theorem clientText_contents (out : List Bytes) : clientText (out.map Line.content) = out.flatten := by
+  induction out with
+  | nil => rfl
+  | cons c cs ih => simp [clientText, ih]
+
+theorem clientReason_contents (out : List Bytes) (tl : List Line) :
+    clientReason (out.map Line.content ++ tl) = clientReason tl := by
+  induction out with
+  | nil => rfl
+  | cons c cs ih => simp [clientReason, ih]
+
+/-- what the client assembles from the handler's lines is the streamed text, and the finish reason
+    it reads is the sequence's -/
+theorem client_view (promptLen : Nat) (f : St) :
+    clientText (handlerLines promptLen f) = f.outText ∧
+    clientReason (handlerLines promptLen f) = f.done := by
+  unfold handlerLines
+  constructor
+  · rw [clientText_append, clientText_contents]
+    cases f.done <;> simp [clientText, St.outText]
+  · rw [clientReason_contents]
+    cases f.done <;> simp [clientReason]
+
 end OllamaVerif.Stop
